@@ -118,6 +118,26 @@ func (r *runner) step(i int, op *Op) {
 
 func (r *runner) beginBurst(ops []Op) {
 	r.burstLoad = 0
+	// Handshakes may overlap only when no RESULT retry can be in progress:
+	// C06, nobody stalled now or during the last 66 s, no call in the burst.
+	safe := !r.strict
+	r.mu.Lock()
+	for _, s := range r.sess {
+		if s.stalled && s.gone == "" {
+			r.lastStalled = r.now()
+		}
+	}
+	if r.lastStalled >= 0 && r.now()-r.lastStalled <= yieldRetryMax {
+		safe = false
+	}
+	r.mu.Unlock()
+	for _, o := range ops {
+		switch o.Op {
+		case "call", "metacall", "kill", "yield", "cancel":
+			safe = false
+		}
+	}
+	r.concurrentJoins = safe
 	for _, o := range ops {
 		n := 1
 		if o.Repeat > 1 {
@@ -140,6 +160,7 @@ func (r *runner) beginBurst(ops []Op) {
 }
 
 func (r *runner) endBurst() {
+	r.concurrentJoins = false
 	r.burstLoad = 0
 	r.unstable = map[int]bool{}
 }
@@ -252,6 +273,9 @@ func (r *runner) execOp(i int, op *Op, gate chan struct{}) {
 			return
 		}
 		r.request(s, ot, gate, "UNSUBSCRIBE "+op.Topic, true, func(req wamp.ID) wamp.Message {
+			r.mu.Lock()
+			s.undone["t:"+op.Topic] = req
+			r.mu.Unlock()
 			return &wamp.Unsubscribe{Request: req, Subscription: id}
 		})
 	case "publish":
@@ -281,6 +305,9 @@ func (r *runner) execOp(i int, op *Op, gate chan struct{}) {
 			return
 		}
 		r.request(s, ot, gate, "UNREGISTER "+op.Proc, true, func(req wamp.ID) wamp.Message {
+			r.mu.Lock()
+			s.undone["p:"+op.Proc] = req
+			r.mu.Unlock()
 			return &wamp.Unregister{Request: req, Registration: id}
 		})
 	case "call":
@@ -397,6 +424,9 @@ func (r *runner) execOp(i int, op *Op, gate chan struct{}) {
 			}
 		})
 	case "removerealm":
+		if gate == nil {
+			r.settleHandshakes()
+		}
 		r.markRealmClosing(op.Realm)
 		r.api(gate, "RemoveRealm "+op.Realm, func() { r.rtr.RemoveRealm(wamp.URI(op.Realm)) })
 	case "sleep":
@@ -474,6 +504,7 @@ func (r *runner) resume(s *sess) {
 	r.mu.Lock()
 	s.stalled = false
 	s.epoch++
+	r.lastStalled = r.now()
 	r.mu.Unlock()
 	s.setPaused(false)
 }
